@@ -173,6 +173,27 @@ def generate(model: Model):
         yield "mutant", "co-aligned:walk-first-dependency", "R02c", mod.rel, _splice(mod.source, c.args[0], f"{c.args[0].id}[:1]")
         yield "twin", "co-aligned:walk-skips-scalars", None, mod.rel, _splice(mod.source, c.args[0], f"[d for d in {c.args[0].id} if d.ndim > 0]")
 
+    # 13. two adjacent, name-matched constructor arguments swapped
+
+    n = 0
+    for mod, cls, fn in model.all_functions():
+        if n >= MAX_PER_OPERATOR:
+            break
+        for c in (x for x in iter_body_nodes(fn) if isinstance(x, ast.Call)):
+            r = ctor_target(model, mod, cls, c)
+            if r is None or any(isinstance(a, ast.Starred) for a in c.args):
+                continue
+            params = model.parameters(r[0])
+            for i in range(1, min(len(c.args), len(params)) - 1):
+                a1, a2 = c.args[i], c.args[i + 1]
+                if isinstance(a1, ast.Name) and isinstance(a2, ast.Name) and a1.id == params[i] and a2.id == params[i + 1] and a1.lineno == a2.lineno and n < MAX_PER_OPERATOR:
+                    s1, e1 = _span(mod.source, a1)
+                    s2, e2 = _span(mod.source, a2)
+                    src = mod.source[:s1] + a2.id + mod.source[e1:s2] + a1.id + mod.source[e2:]
+                    yield "mutant", f"swap-args:{fn.name}->{r[0].name}:{a1.id}<->{a2.id}", "R01h", mod.rel, src
+                    n += 1
+                    break
+
     # ---- twins -------------------------------------------------------------------------------------
     def rename_local(modname, owner, fname, old, new):
         if owner:
